@@ -278,6 +278,22 @@ func runC40(env *kernel.Env) {
 			env.Fail("server-survives", "later-login-fails", "after the attempts a well-formed login is refused (err %d closed=%v %s)", out.errNum, out.closed, out.detail)
 		}
 	}
+	// every attempt has ended (accepted and closed, refused, or abandoned half-way): after the
+	// server has noticed, no connection of theirs is left in the process list
+	if !env.Failed() {
+		w.Sched.Advance(2 * time.Second)
+		w.Settle(base, 10*time.Second)
+		w.Sched.Advance(2 * time.Second)
+		synctest.Wait()
+		if left := w.Eng.ProcessList.Processes(); len(left) > 0 {
+			var l []string
+			for _, p := range left {
+				l = append(l, fmt.Sprintf("%d:%s:%s", p.Connection, p.User, p.Command))
+			}
+			env.Fail("connections-are-forgotten", "processlist-leftover", "all clients have gone but the process list still holds %d connection(s): %s", len(left), strings.Join(l, " "))
+		}
+		env.Probe("processlist-empty-checked")
+	}
 	if cl.Task.Idle() {
 		cl.Task.Close()
 	}
